@@ -8,6 +8,7 @@ import (
 	"fmt"
 	"go/ast"
 	"go/constant"
+	"go/token"
 	"go/types"
 	"golang.org/x/tools/go/ssa"
 	"reflect"
@@ -82,8 +83,13 @@ var expectedTags = map[string]map[string]string{
 	repoModule + "/types.EncryptedAssertion": {"XMLName": "urn:oasis:names:tc:SAML:2.0:assertion EncryptedAssertion",
 		"EncryptionMethod": "EncryptedData>EncryptionMethod", "EncryptedKey": "EncryptedData>KeyInfo>EncryptedKey", "DetEncryptedKey": "EncryptedKey",
 		"CipherValue": "EncryptedData>CipherData>CipherValue"},
-	repoModule + "/types.EncryptedKey": {"X509Data": "KeyInfo>X509Data>X509Certificate", "CipherValue": "CipherData>CipherValue"},
+	repoModule + "/types.EncryptedKey":     {"X509Data": "KeyInfo>X509Data>X509Certificate", "CipherValue": "CipherData>CipherValue", "EncryptionMethod": ""},
+	repoModule + "/types.EncryptionMethod": {"Algorithm": ",attr,omitempty", "DigestMethod": ",omitempty"},
+	repoModule + "/types.DigestMethod":     {"Algorithm": ",attr,omitempty"},
 }
+
+// xmlencStructs: the XML-Encryption part of the binding (what DecryptSymmetricKey / DecryptBytes dispatch on).
+var xmlencStructs = []string{repoModule + "/types.EncryptedAssertion", repoModule + "/types.EncryptedKey", repoModule + "/types.EncryptionMethod", repoModule + "/types.DigestMethod"}
 
 func splitQual(q string) (string, string) {
 	i := strings.LastIndex(q, ".")
@@ -205,6 +211,7 @@ var schemaChecks = []schemaCheck{
 	{"schema.tags.flags", []string{"C04", "C01", "C10"}, tagsCheck([]string{repoModule + "/types.Response", repoModule + "/types.Assertion",
 		repoModule + "/types.LogoutResponse", repoModule + ".LogoutRequest"}, func(f string) bool { return f == "SignatureValidated" })},
 	{"schema.tags.decode", []string{"C08", "C01"}, tagsCheck(allExpectedStructs(), nil)},
+	{"schema.tags.xmlenc", []string{"C11", "C07"}, tagsCheck(xmlencStructs, nil)},
 	{"schema.xmlname.kinds", []string{"C10", "C01"}, func(w *World) (bool, string) {
 		names := map[string]string{}
 		for _, q := range []string{repoModule + "/types.Response", repoModule + "/types.LogoutResponse", repoModule + ".LogoutRequest"} {
@@ -410,6 +417,70 @@ func analyseTemplate(text string) (payload string, hasRelay bool, ok bool, why s
 	return payload, hasRelay, true, ""
 }
 
+// argSources: the values that reach a call argument. A parameter of an unexported repository function (a helper the
+// code was factored into) is traced to the corresponding argument of every call of that function, one level deep;
+// ok is false when the function is exported, is used as a value, or has no caller.
+func argSources(w *World, fn *ssa.Function, v ssa.Value) (vals []ssa.Value, callers []*ssa.Function, ok bool) {
+	// naive-form SSA keeps parameters in local cells: look through a load of a cell whose only store is a parameter
+	if ld, isLoad := v.(*ssa.UnOp); isLoad && ld.Op == token.MUL {
+		if al, isAlloc := ld.X.(*ssa.Alloc); isAlloc && al.Referrers() != nil {
+			var stored []ssa.Value
+			for _, r := range *al.Referrers() {
+				if st, isStore := r.(*ssa.Store); isStore && st.Addr == al {
+					stored = append(stored, st.Val)
+				}
+			}
+			if len(stored) == 1 {
+				if _, isParam := stored[0].(*ssa.Parameter); isParam {
+					v = stored[0]
+				}
+			}
+		}
+	}
+	p, isParam := v.(*ssa.Parameter)
+	if !isParam {
+		return []ssa.Value{v}, []*ssa.Function{fn}, true
+	}
+	if fn.Object() == nil || fn.Object().Exported() {
+		return nil, nil, false
+	}
+	idx := -1
+	for i, q := range fn.Params {
+		if q == p {
+			idx = i
+		}
+	}
+	if idx < 0 {
+		return nil, nil, false
+	}
+	for _, sp := range w.RepoPkgs {
+		for _, g := range allFuncs(sp) {
+			for _, b := range g.Blocks {
+				for _, in := range b.Instrs {
+					if _, isDbg := in.(*ssa.DebugRef); isDbg {
+						continue
+					}
+					for _, op := range in.Operands(nil) {
+						if *op == ssa.Value(fn) {
+							ci, isCall := in.(ssa.CallInstruction)
+							if !isCall || ci.Common().StaticCallee() != fn {
+								return nil, nil, false // used as a value
+							}
+						}
+					}
+					ci, isCall := in.(ssa.CallInstruction)
+					if !isCall || ci.Common().StaticCallee() != fn || idx >= len(ci.Common().Args) {
+						continue
+					}
+					vals = append(vals, ci.Common().Args[idx])
+					callers = append(callers, g)
+				}
+			}
+		}
+	}
+	return vals, callers, len(vals) > 0
+}
+
 // templateFacts finds every constant passed to (*html/template.Template).Parse in the repo packages.
 func templateFacts(w *World) ([]tmplFact, []string) {
 	var facts []tmplFact
@@ -437,14 +508,21 @@ func templateFacts(w *World) ([]tmplFact, []string) {
 					if len(c.Call.Args) < 2 {
 						continue
 					}
-					k, ok := c.Call.Args[1].(*ssa.Const)
-					if !ok || k.Value == nil || k.Value.Kind() != constant.String {
+					srcs, callers, traced := argSources(w, fn, c.Call.Args[1])
+					if !traced {
 						problems = append(problems, shortFn(fnKey(fn))+" parses a non-constant template")
 						continue
 					}
-					text := constant.StringVal(k.Value)
-					p, hr, okk, why := analyseTemplate(text)
-					facts = append(facts, tmplFact{text: text, fn: shortFn(fnKey(fn)), hasRelay: hr, payload: p, wellOK: okk, why: why})
+					for si, sv := range srcs {
+						k, ok := sv.(*ssa.Const)
+						if !ok || k.Value == nil || k.Value.Kind() != constant.String {
+							problems = append(problems, shortFn(fnKey(callers[si]))+" parses a non-constant template")
+							continue
+						}
+						text := constant.StringVal(k.Value)
+						p, hr, okk, why := analyseTemplate(text)
+						facts = append(facts, tmplFact{text: text, fn: shortFn(fnKey(callers[si])), hasRelay: hr, payload: p, wellOK: okk, why: why})
+					}
 				}
 			}
 		}
@@ -494,20 +572,27 @@ func dataFieldsAreStrings(w *World) (bool, string) {
 					if callee.Pkg.Pkg.Path() != "html/template" {
 						return false, shortFn(fnKey(fn)) + " executes a " + callee.Pkg.Pkg.Path() + " template"
 					}
-					mi, ok := c.Call.Args[2].(*ssa.MakeInterface)
-					if !ok {
+					srcs, callers, traced := argSources(w, fn, c.Call.Args[2])
+					if !traced {
 						return false, shortFn(fnKey(fn)) + ": template data is not a struct literal"
 					}
-					st, ok := mi.X.Type().Underlying().(*types.Struct)
-					if !ok {
-						return false, shortFn(fnKey(fn)) + ": template data is not a struct"
-					}
-					for i := 0; i < st.NumFields(); i++ {
-						if bt, ok := st.Field(i).Type().(*types.Basic); !ok || bt.Kind() != types.String {
-							return false, fmt.Sprintf("%s: template field %s has type %s (must be plain string so that html/template escapes it)", shortFn(fnKey(fn)), st.Field(i).Name(), st.Field(i).Type())
+					for si, sv := range srcs {
+						who := shortFn(fnKey(callers[si]))
+						mi, ok := sv.(*ssa.MakeInterface)
+						if !ok {
+							return false, who + ": template data is not a struct literal"
 						}
+						st, ok := mi.X.Type().Underlying().(*types.Struct)
+						if !ok {
+							return false, who + ": template data is not a struct"
+						}
+						for i := 0; i < st.NumFields(); i++ {
+							if bt, ok := st.Field(i).Type().(*types.Basic); !ok || bt.Kind() != types.String {
+								return false, fmt.Sprintf("%s: template field %s has type %s (must be plain string so that html/template escapes it)", who, st.Field(i).Name(), st.Field(i).Type())
+							}
+						}
+						n++
 					}
-					n++
 				}
 			}
 		}
